@@ -74,8 +74,10 @@ struct OpCtl
     long fault_at = -1;   // 1-based index of the application that throws (-1: never)
     long fault_at2 = -1;
     long bad_args = 0;    // applications with x == y or null pointers
+    bool paused = false;  // observer computations do not count and never fault
     void tick(const void* x, const void* y)
     {
+        if (paused) return;
         count++;
         if (x == nullptr || y == nullptr || x == y) bad_args++;
         if (count == fault_at || count == fault_at2) throw OpFault(count);
@@ -233,10 +235,30 @@ struct Peek
     std::string flags, small, pairs;   // '0'/'1' strings: convergence flags; |est_i| < near_0; (is_complex(val_j) && is_conj(val_j, val_j+1))
 };
 
+// defects of the Krylov factorization held by a solver (C07), all relative to `scale`
+struct KryRep
+{
+    long k = -1, m = -1; double scale = 0, rel = -1, orth = -1, fperp = -1, shape = -1, sym = -1, beta_err = -1; bool finite = true;
+};
+
 struct IRunner
 {
     Problem prob; OpCtl ctl, ctlB;
     virtual void peek(Peek&) {}
+    virtual void kry(KryRep&, bool lanczos_shape) {}
+    // reference spectrum of the user's problem (dense solver), for the selection property
+    virtual std::vector<cd> reference() const
+    {
+        std::vector<cd> out;
+        if (is_general_cls)
+        { Eigen::EigenSolver<Mat> es(prob.A, false); for (long i = 0; i < prob.n; i++) out.push_back(es.eigenvalues()[i]); }
+        else if (complex_scalar())
+        { Eigen::SelfAdjointEigenSolver<CMat> es(prob.Ac, Eigen::EigenvaluesOnly); for (long i = 0; i < prob.n; i++) out.push_back(cd(es.eigenvalues()[i], 0)); }
+        else
+        { Eigen::SelfAdjointEigenSolver<Mat> es(prob.A, Eigen::EigenvaluesOnly); for (long i = 0; i < prob.n; i++) out.push_back(cd(es.eigenvalues()[i], 0)); }
+        return out;
+    }
+    bool is_general_cls = false;
     std::string cls; int nev = 0, ncv = 0;
     virtual ~IRunner() {}
     virtual void init() = 0;
@@ -246,6 +268,8 @@ struct IRunner
     virtual bool complex_scalar() const { return false; }
     // the user's pencil, for residuals: returns A x and B x in the ORIGINAL problem
     virtual void pencil(const CVec& x, CVec& Ax, CVec& Bx) const { Ax = prob.A.cast<cd>() * x; Bx = x; }
+    // M x for the inner product the returned vectors are orthonormal in (B; K in buckling mode)
+    virtual CVec ipvec(const CVec& x) const { CVec a, b; pencil(x, a, b); return b; }
     virtual double normA() const { return prob.A.norm(); }
     virtual double normB() const { return 1.0; }
     // probe the user operator with a fixed vector (for "operator left untouched")
@@ -268,7 +292,41 @@ static void peek_solver(S& s, Peek& p)
         p.pairs += ((a.imag() != 0.0 && a == std::conj(b)) ? '1' : '0');
     }
 }
-#define ZOO_PEEK void peek(Peek& p) override { peek_solver(*s, p); }
+template <typename S>
+static void kry_solver(S& s, KryRep& r, OpCtl& c1, OpCtl& c2, bool herm)
+{
+    typedef typename std::remove_reference<decltype(s.m_fac.m_fac_V)>::type M;
+    typedef typename M::Scalar Sc;
+    typedef Eigen::Matrix<Sc, Eigen::Dynamic, 1> V;
+    auto& fac = s.m_fac;
+    const bool p1 = c1.paused, p2 = c2.paused; c1.paused = true; c2.paused = true;
+    const long k = (long) fac.m_k, n = (long) fac.m_n; r.k = k; r.m = (long) fac.m_m;
+    if (k >= 1 && k <= fac.m_m && fac.m_fac_V.cols() >= k && fac.m_fac_V.rows() == n)
+    {
+        M Vk = fac.m_fac_V.leftCols(k); M Hk = fac.m_fac_H.topLeftCorner(k, k); V f = fac.m_fac_f;
+        M OV(n, k);
+        for (long j = 0; j < k; j++) { V x = Vk.col(j), y(n); fac.m_op.perform_op(x.data(), y.data()); OV.col(j) = y; }
+        M R = OV - Vk * Hk; R.col(k - 1) -= f;
+        double scale = std::max((double) OV.norm() / std::sqrt((double) k), 1e-300);
+        r.scale = scale; r.rel = (double) R.norm() / scale;
+        M G(k, k); V g(k);
+        for (long i = 0; i < k; i++) { for (long j = 0; j < k; j++) G(i, j) = fac.m_op.inner_product(Vk.col(i), Vk.col(j)); g[i] = fac.m_op.inner_product(Vk.col(i), f); }
+        r.orth = (double) (G - M::Identity(k, k)).norm();
+        r.fperp = (double) g.norm() / scale;
+        double sh = 0, sy = 0;
+        for (long j = 0; j < k; j++) for (long i = 0; i < k; i++)
+        {
+            if (i > j + 1) sh = std::max(sh, (double) std::abs(Hk(i, j)));
+            if (herm && j > i + 1) sh = std::max(sh, (double) std::abs(Hk(i, j)));
+            if (herm) sy = std::max(sy, (double) std::abs(Hk(i, j) - Eigen::numext::conj(Hk(j, i))));
+        }
+        r.shape = sh / scale; r.sym = sy / scale;
+        r.beta_err = std::abs((double) fac.m_beta - (double) fac.m_op.norm(f)) / scale;
+        r.finite = std::isfinite(r.rel) && std::isfinite(r.orth) && std::isfinite(r.fperp);
+    }
+    c1.paused = p1; c2.paused = p2;
+}
+#define ZOO_PEEK void peek(Peek& p) override { peek_solver(*s, p); } void kry(KryRep& r, bool herm) override { kry_solver(*s, r, ctl, ctlB, herm); }
 #else
 #define ZOO_PEEK
 #endif
@@ -328,7 +386,7 @@ struct RSymShift : IRunner
 struct RGen : IRunner
 {
     typedef Ctl<DenseGenMatProd<double>> Op; std::unique_ptr<Op> op; std::unique_ptr<GenEigsSolver<Op>> s;
-    RGen(const Problem& p, int nev_, int ncv_) { prob = p; cls = "GenEigsSolver"; nev = nev_; ncv = ncv_; op.reset(new Op(prob.A)); op->ctl = &ctl; s.reset(new GenEigsSolver<Op>(*op, nev, ncv)); }
+    RGen(const Problem& p, int nev_, int ncv_) { is_general_cls = true; prob = p; cls = "GenEigsSolver"; nev = nev_; ncv = ncv_; op.reset(new Op(prob.A)); op->ctl = &ctl; s.reset(new GenEigsSolver<Op>(*op, nev, ncv)); }
     void init() override { s->init(); }
     void initv(const CVec& v) override { Vec r = v.real(); s->init(r.data()); }
     long compute(int sel, long maxit, double tol, int sorting) override { return (long) s->compute((SortRule) sel, maxit, tol, (SortRule) sorting); }
@@ -340,7 +398,7 @@ struct RGen : IRunner
 struct RGenRealShift : IRunner
 {
     typedef Ctl<DenseGenRealShiftSolve<double>> Op; std::unique_ptr<Op> op; std::unique_ptr<GenEigsRealShiftSolver<Op>> s;
-    RGenRealShift(const Problem& p, int nev_, int ncv_) { prob = p; cls = "GenEigsRealShiftSolver"; nev = nev_; ncv = ncv_; op.reset(new Op(prob.A)); op->ctl = &ctl; s.reset(new GenEigsRealShiftSolver<Op>(*op, nev, ncv, prob.sigma)); }
+    RGenRealShift(const Problem& p, int nev_, int ncv_) { is_general_cls = true; prob = p; cls = "GenEigsRealShiftSolver"; nev = nev_; ncv = ncv_; op.reset(new Op(prob.A)); op->ctl = &ctl; s.reset(new GenEigsRealShiftSolver<Op>(*op, nev, ncv, prob.sigma)); }
     void init() override { s->init(); }
     void initv(const CVec& v) override { Vec r = v.real(); s->init(r.data()); }
     long compute(int sel, long maxit, double tol, int sorting) override { return (long) s->compute((SortRule) sel, maxit, tol, (SortRule) sorting); }
@@ -352,7 +410,7 @@ struct RGenRealShift : IRunner
 struct RGenComplexShift : IRunner
 {
     typedef Ctl<DenseGenComplexShiftSolve<double>> Op; std::unique_ptr<Op> op; std::unique_ptr<GenEigsComplexShiftSolver<Op>> s;
-    RGenComplexShift(const Problem& p, int nev_, int ncv_) { prob = p; cls = "GenEigsComplexShiftSolver"; nev = nev_; ncv = ncv_; op.reset(new Op(prob.A)); op->ctl = &ctl; s.reset(new GenEigsComplexShiftSolver<Op>(*op, nev, ncv, prob.sigma, prob.sigmai)); }
+    RGenComplexShift(const Problem& p, int nev_, int ncv_) { is_general_cls = true; prob = p; cls = "GenEigsComplexShiftSolver"; nev = nev_; ncv = ncv_; op.reset(new Op(prob.A)); op->ctl = &ctl; s.reset(new GenEigsComplexShiftSolver<Op>(*op, nev, ncv, prob.sigma, prob.sigmai)); }
     void init() override { s->init(); }
     void initv(const CVec& v) override { Vec r = v.real(); s->init(r.data()); }
     long compute(int sel, long maxit, double tol, int sorting) override { return (long) s->compute((SortRule) sel, maxit, tol, (SortRule) sorting); }
@@ -374,6 +432,12 @@ struct RGCholesky : IRunner
     void snapshot(Obs& o, long nvec) override { snap(*s, o, nvec); }
     void pencil(const CVec& x, CVec& Ax, CVec& Bx) const override { Ax = prob.A.cast<cd>() * x; Bx = prob.B.cast<cd>() * x; }
     double normB() const override { return prob.B.norm(); }
+    std::vector<cd> reference() const override
+    {
+        std::vector<cd> out; Eigen::GeneralizedSelfAdjointEigenSolver<Mat> es(prob.A, prob.B, Eigen::EigenvaluesOnly);
+        for (long i = 0; i < prob.n; i++) out.push_back(cd(es.eigenvalues()[i], 0));
+        return out;
+    }
     void* solver_ptr() override { return s.get(); }
     ZOO_PEEK
 };
@@ -390,6 +454,12 @@ struct RGRegInv : IRunner
     void snapshot(Obs& o, long nvec) override { snap(*s, o, nvec); }
     void pencil(const CVec& x, CVec& Ax, CVec& Bx) const override { Ax = prob.A.cast<cd>() * x; Bx = prob.B.cast<cd>() * x; }
     double normB() const override { return prob.B.norm(); }
+    std::vector<cd> reference() const override
+    {
+        std::vector<cd> out; Eigen::GeneralizedSelfAdjointEigenSolver<Mat> es(prob.A, prob.B, Eigen::EigenvaluesOnly);
+        for (long i = 0; i < prob.n; i++) out.push_back(cd(es.eigenvalues()[i], 0));
+        return out;
+    }
     void* solver_ptr() override { return s.get(); }
     ZOO_PEEK
 };
@@ -418,6 +488,19 @@ struct RGShift : IRunner
     }
     double normA() const override { return Mode == GEigsMode::Buckling ? prob.B.norm() : prob.A.norm(); }
     double normB() const override { return Mode == GEigsMode::Buckling ? prob.A.norm() : prob.B.norm(); }
+    std::vector<cd> reference() const override
+    {
+        std::vector<cd> out; Eigen::GeneralizedSelfAdjointEigenSolver<Mat> es(prob.A, prob.B, Eigen::EigenvaluesOnly);   // A x = mu B x
+        for (long i = 0; i < prob.n; i++)
+        {
+            double mu = es.eigenvalues()[i];
+            if (Mode == GEigsMode::Buckling) { if (mu != 0.0) out.push_back(cd(1.0 / mu, 0)); }   // K x = lambda KG x with K = B, KG = A
+            else out.push_back(cd(mu, 0));
+        }
+        return out;
+    }
+    CVec ipvec(const CVec& x) const override { return prob.B.cast<cd>() * x; }   // B, and K in buckling mode: both are prob.B
+
     void* solver_ptr() override { return s.get(); }
     ZOO_PEEK
 };
